@@ -140,6 +140,21 @@ Proof. exact w_late_refutes. Qed.
 Theorem C07_record_joining_a_probe_refuted : only_known 44 (self7 w_join_ifs w_join_its).
 Proof. exact w_join_known. Qed.
 
+(* "... a further 250 ms has passed without a conflict" / "after a lost comparison it waits one
+   second and probes again" is FALSE when a host-name conflict follows a lost tie-break:
+   update_hostname moves the instance probe's start_time back without touching next_send, and at
+   next_send the probe counts as finished.  Witness (run on the real daemon): the instance name is
+   probed once, at +222 ms, and announced at +1471 ms. *)
+Theorem C07_no_reprobe_after_lost_tiebreak_refuted :
+  only_known 46 (self7 w_skipreprobe_ifs w_skipreprobe_its) /\
+  wire_probe_times 2 [100;101;118;45;49;46;95;116;46;95;116;99;112;46;108;111;99;97;108;46]
+                   (d_init w_skipreprobe_ifs) w_skipreprobe_its = [1000222] /\
+  busy (timeline w_skipreprobe_ifs w_skipreprobe_its) =
+  [ (1000222, true, false, false); (1000472, true, false, false); (1000696, true, false, false);
+    (1000722, true, false, false); (1000946, true, false, false); (1001196, true, false, false);
+    (1001471, false, true, false) ].
+Proof. exact w_skipreprobe_refutes. Qed.
+
 (* History level, full statement (validated on every generated history by running chk_C07 on the
    model's own observation, NOT proved):
      forall ifs its, well-formed history -> no VFail in chk_C07 g7_init (d_init ifs) its (model_obs (d_init ifs) its).
@@ -173,4 +188,5 @@ Print Assumptions C07_no_answer_unless_announced.
 Print Assumptions C07_registration_is_joins.
 Print Assumptions C07_three_probes_on_late_schedules_refuted.
 Print Assumptions C07_record_joining_a_probe_refuted.
+Print Assumptions C07_no_reprobe_after_lost_tiebreak_refuted.
 Print Assumptions C07_exact_run.
